@@ -232,9 +232,13 @@ def run(ctx):
                 'JOIN 25%%, failing queries 8%%) through 9 entry points {query_table, query + user iterator/writer/registry, query_csv, python -m rbql (file->file, stdin->stdout, '
                 '--out-format input/csv/tsv), query_pandas_dataframe, sqlite + query_sqlite_to_csv}; each compared with the model table and header; CLI: exit status, stdout carries only the table, '
                 'stderr `Error [` on failure; %d queries x 9 entry points; non-trivial = distinct case with rows or an error') % n
+    # adapter paths no other run reaches (bounded reads, _write_all, pandas join lookup, rbql-js writer failures) - coverage gaps, notes/covgap.md
+    __import__('importlib').import_module('props.cov_csvmisc').run(ctx, THEOREM)
 
 
 def replay(ctx, case):
+    if case.get('part') == 'cov_csvmisc':
+        return __import__('importlib').import_module('props.cov_csvmisc').replay(ctx, case, THEOREM)
     if case.get('part') in ('c13s', 'c13mono'):
         return __import__('importlib').import_module('props.c13s').replay(ctx, case, THEOREM)
     args, mres, exp = model([case])
